@@ -336,6 +336,8 @@ def oracle(case, out):
         A, B = _np(A), _np(B)
         if B.shape != (2 ** cur["nq"], 2 ** cur["nq"]):
             return (t + "-dimension", f"step {i} {mod}: matrix shape {B.shape} for {cur['nq']} qubits")
+        if not (np.all(np.isfinite(A)) and np.all(np.isfinite(B))) or max(np.abs(A).max(), np.abs(B).max()) > 1e12:
+            continue  # float overflow / total loss of precision (e.g. exp of a matrix with entries ~1e4): not judged
         if t == "dagger":
             if not _close(B, A.conj().T):
                 sig = "power-fraction-dagger" if has_fraction(prev["struct"]) else "dagger-adjoint"
@@ -365,8 +367,12 @@ def oracle(case, out):
                 if not _close(np.linalg.matrix_power(B, e.denominator), A, 1e-7):
                     return ("power-root", f"step {i}: the {e.denominator}-th power of power(1/{e.denominator}) is not the original matrix")
         elif t == "exp":
-            if not _close(B, sl.expm(A), 1e-7):
-                return ("exp-matrix", f"step {i}: exp matrix is not the matrix exponential of the original")
+            # judge only where floating-point exp is meaningful: a generator of moderate norm and finite results
+            # (exp of a matrix with entries ~1e4 overflows / loses all digits in BOTH implementations)
+            if np.all(np.isfinite(A)) and np.linalg.norm(A, 2) <= 20:
+                E = sl.expm(A)
+                if np.all(np.isfinite(E)) and np.all(np.isfinite(B)) and not _close(B, E, 1e-7):
+                    return ("exp-matrix", f"step {i}: exp matrix is not the matrix exponential of the original")
     return None
 
 
